@@ -94,3 +94,85 @@ pub fn zobrist_move_piece_skip(
 ) -> arimaa_engine_step::Zobrist {
     *z
 }
+
+// ---------------------------------------------------------------------------------------
+// Hash abstractions (DESIGN §5 C08, §10): the hash delta is a GF(2)-linear combination of
+// table entries whose coefficients do not depend on the table contents. Replacing the table
+// by the indicator of ONE symbolic (square, type, owner) triple turns "the engine XORs exactly
+// the values of the squares whose content changed" into a statement about one bit, and the
+// triple is universally quantified by the solver.
+// ---------------------------------------------------------------------------------------
+
+pub static mut TARGET_SQ: u8 = 0;
+pub static mut TARGET_TY: u8 = 0;
+pub static mut TARGET_GOLD: bool = false;
+
+pub fn set_target(sq: u8, ty: u8, gold: bool) {
+    unsafe {
+        TARGET_SQ = sq;
+        TARGET_TY = ty;
+        TARGET_GOLD = gold;
+    }
+}
+
+pub fn piece_value_indicator(square: Square, piece: arimaa_engine_step::Piece, is_p1: bool) -> u64 {
+    let ty = crate::scenario::ty_of(piece);
+    let hit = unsafe { square.index() as u8 == TARGET_SQ && ty == TARGET_TY && is_p1 == TARGET_GOLD };
+    if hit {
+        1
+    } else {
+        0
+    }
+}
+
+/// Abstract `Zobrist::move_piece` for the repetition predicates: two arbitrary values X_SAME /
+/// X_OTHER (by the new side-to-move flag), after checking that the engine asks about the right
+/// board (EXPECT words, set by the harness), step 0.
+pub static mut X_SAME: u64 = 0;
+pub static mut X_OTHER: u64 = 0;
+pub static mut EXPECT: [u64; 8] = [0; 8];
+pub static mut EXPECT_ON: bool = false;
+
+pub fn zobrist_move_piece_abstract(
+    _z: &arimaa_engine_step::Zobrist,
+    prev: &arimaa_engine_step::GameState,
+    nb: &arimaa_engine_step::PieceBoardState,
+    new_step: usize,
+    new_p1: bool,
+) -> arimaa_engine_step::Zobrist {
+    unsafe {
+        if EXPECT_ON {
+            assert!(new_step == 0, "STRUCT: repetition predicate hashes a non-turn-start step");
+            assert!(
+                nb.p1_pieces == EXPECT[0]
+                    && nb.rabbits == EXPECT[1]
+                    && nb.cats == EXPECT[2]
+                    && nb.dogs == EXPECT[3]
+                    && nb.horses == EXPECT[4]
+                    && nb.camels == EXPECT[5]
+                    && nb.elephants == EXPECT[6]
+                    && nb.all_pieces == EXPECT[7],
+                "STRUCT: repetition predicate hashes a board that is not the result of the action"
+            );
+        }
+        // digest of the board so that different actions get different (arbitrary) values
+        let dig = nb.p1_pieces ^ nb.rabbits.rotate_left(7) ^ nb.cats.rotate_left(13) ^ nb.dogs.rotate_left(19)
+            ^ nb.horses.rotate_left(29) ^ nb.camels.rotate_left(37) ^ nb.elephants.rotate_left(43);
+        let x = if new_p1 == prev.is_p1_turn_to_move() { X_SAME } else { X_OTHER };
+        arimaa_engine_step::Zobrist::from_raw(x ^ dig)
+    }
+}
+
+/// anyhow captures a backtrace for every error value; that goes through env lookups and lazy
+/// statics that are irrelevant to every property here.
+pub fn backtrace_capture_disabled() -> std::backtrace::Backtrace {
+    std::backtrace::Backtrace::disabled()
+}
+
+/// Cut (recorded in evidence): a path ends where the first `anyhow!` error value is constructed.
+/// In the four notation parsers what follows on such a path is only `Err(..)` propagation; the
+/// construction itself (boxing, vtables, backtrace) is what made the parser harnesses intractable.
+pub fn anyhow_format_err_cut(_args: std::fmt::Arguments<'_>) -> anyhow::Error {
+    kani::assume(false);
+    unreachable!()
+}
